@@ -4,34 +4,34 @@
 From Coq Require Import ZArith.
 From Redo Require Import Base.Bytes Build.Model Build.LocalProofs.
 
-Theorem C02_never_built_runs : forall fuel runid w c f mx seen,
+Theorem C02_never_built_runs : forall fuel runid w c f r mx seen,
   existsb (Nat.eqb f) seen = false ->
-  r_changed (load runid (dbs w) f) = None ->
-  is_dirty (S fuel) runid w c f mx seen = Ret (VDirty, w, c, []).
+  r_changed r = None ->
+  is_dirty (S fuel) runid w c f r mx seen = Ret (VDirty, w, c, []).
 Proof. exact is_dirty_never_built. Qed.
-Check C02_never_built_runs : forall fuel runid w c f mx seen,
+Check C02_never_built_runs : forall fuel runid w c f r mx seen,
   existsb (Nat.eqb f) seen = false ->
-  r_changed (load runid (dbs w) f) = None ->
-  is_dirty (S fuel) runid w c f mx seen = Ret (VDirty, w, c, []).
+  r_changed r = None ->
+  is_dirty (S fuel) runid w c f r mx seen = Ret (VDirty, w, c, []).
 Print Assumptions C02_never_built_runs.
 
-Theorem C02_failed_runs : forall fuel runid w c f mx seen,
+Theorem C02_failed_runs : forall fuel runid w c f r mx seen,
   existsb (Nat.eqb f) seen = false ->
-  r_failed (load runid (dbs w) f) <> None ->
-  is_dirty (S fuel) runid w c f mx seen = Ret (VDirty, w, c, []).
+  r_failed r <> None ->
+  is_dirty (S fuel) runid w c f r mx seen = Ret (VDirty, w, c, []).
 Proof. exact is_dirty_failed. Qed.
-Check C02_failed_runs : forall fuel runid w c f mx seen,
+Check C02_failed_runs : forall fuel runid w c f r mx seen,
   existsb (Nat.eqb f) seen = false ->
-  r_failed (load runid (dbs w) f) <> None ->
-  is_dirty (S fuel) runid w c f mx seen = Ret (VDirty, w, c, []).
+  r_failed r <> None ->
+  is_dirty (S fuel) runid w c f r mx seen = Ret (VDirty, w, c, []).
 Print Assumptions C02_failed_runs.
 
 (* deciding dirtiness has no effect on any file *)
-Theorem C02_check_no_file_effect : forall fuel runid w c f mx seen v w' c' evs,
-  is_dirty fuel runid w c f mx seen = Ret (v, w', c', evs) -> fs w' = fs w.
+Theorem C02_check_no_file_effect : forall fuel runid w c f r mx seen v w' c' evs,
+  is_dirty fuel runid w c f r mx seen = Ret (v, w', c', evs) -> fs w' = fs w.
 Proof. exact is_dirty_fs. Qed.
-Check C02_check_no_file_effect : forall fuel runid w c f mx seen v w' c' evs,
-  is_dirty fuel runid w c f mx seen = Ret (v, w', c', evs) -> fs w' = fs w.
+Check C02_check_no_file_effect : forall fuel runid w c f r mx seen v w' c' evs,
+  is_dirty fuel runid w c f r mx seen = Ret (v, w', c', evs) -> fs w' = fs w.
 Print Assumptions C02_check_no_file_effect.
 
 Definition C02_full_statement : Prop :=
